@@ -1,6 +1,7 @@
 (* C18 - a schema generated from a Go type accepts every JSON encoding of that type. *)
 From KV Require Import Model.Base Model.Json Model.Schema Spec.SchemaSpec Spec.SchemaGuards Proofs.SchemaProofs
-     Model.GoTypes Proofs.C18Proofs.
+     Model.GoTypes Proofs.C18Proofs Model.Fields Proofs.FieldsProofs.
+From Coq Require Import Sorting.Permutation Sorting.Sorted.
 Local Open Scope list_scope.
 
 (* For every non-recursive Go type built from booleans, sized integers, floats, strings, byte
@@ -44,3 +45,35 @@ Proof. vm_compute. repeat split. Qed.
 Example C18_refuted_string_option :
   satb (fun _ => true) (fun _ _ => true) (fun _ _ _ => None) md_plain (gen_root (TStruct [("n", false, TInt None None "")])) (JObj [("n", JStr "5")]) = false.
 Proof. vm_compute. reflexivity. Qed.
+
+(* structs that embed structs (Model/Fields.v: appendFields, the sort of getTypeInfo, the property
+   map of the struct case): for every embedding tree and every JSON name, when encoding/json writes a
+   field under that name - the one of least depth, if it is the only one of that depth - the property
+   the generator keeps for the name is generated from that field's type ... *)
+Theorem C18_embedded_fields_follow_encoding_json :
+  forall fs n t, json_field fs n = Some (Some t) -> gen_property fs n = Some t.
+Proof. exact gen_property_follows_json. Qed.
+Print Assumptions C18_embedded_fields_follow_encoding_json.
+
+(* ... whichever correct sorting algorithm orders the fields (sort.Sort is not stable: the theorem
+   holds for every sorted permutation of the collected fields, not only for the model's insertion sort) ... *)
+Theorem C18_embedded_fields_any_sort :
+  forall fs n e l, Permutation l (flatten fs) -> StronglySorted key_le l -> dominates n e (flatten fs) ->
+  pick n l = Some (e_ty e).
+Proof. exact sorted_fields_keep_dominant. Qed.
+Print Assumptions C18_embedded_fields_any_sort.
+
+(* ... and a name no field carries gets no property *)
+Theorem C18_no_field_no_property :
+  forall fs n, named n (flatten fs) = [] -> gen_property fs n = None.
+Proof. exact gen_property_absent. Qed.
+
+(* non-vacuity: Outer{ Kind int `kind`; Inner } with Inner{ Base; Deep } and Base{ ID; Kind string `kind` }
+   (names by rank: deep 0, id 1, kind 2; types: string 0, integer 2, number 1): the outer kind wins,
+   id and deep are promoted; and two fields of one name at one depth are written by neither side's rule *)
+Example C18_embedded_example :
+  let fs := [FField 2 2; FEmbed [FEmbed [FField 1 2; FField 2 0]; FField 0 1]]%N in
+  json_field fs 2%N = Some (Some 2%N) /\ gen_property fs 2%N = Some 2%N /\
+  json_field fs 1%N = Some (Some 2%N) /\ gen_property fs 0%N = Some 1%N /\ gen_property fs 3%N = None /\
+  json_field [FEmbed [FField 0 2]; FEmbed [FField 0 0]]%N 0%N = None.
+Proof. vm_compute. repeat split. Qed.
